@@ -201,6 +201,43 @@ pub fn run_mutpass()
 			};
 			match w[0].as_str()
 			{
+				// wrap <map> <base> <Variant:field>: the address of <base> (a Deref with address depth 1) as the named child of
+				// an expression of that variant; answers whether the E530 of the child surfaces
+				"wrap" =>
+				{
+					let child = Expression::Deref {
+						reference: Reference {
+							base,
+							steps: Vec::new(),
+							address_depth: 1,
+							location: loc(),
+							location_of_unaddressed: loc(),
+						},
+						deref_type: None,
+					};
+					let lit = || Expression::BooleanLiteral { value: true, location: loc() };
+					let int32 = penne::alpha::value_type::ValueType::Int32;
+					let e = match w[3].as_str()
+					{
+						"Binary:left" => Expression::Binary { op: BinaryOp::Add, left: Box::new(child), right: Box::new(lit()), location: loc(), location_of_op: loc() },
+						"Binary:right" => Expression::Binary { op: BinaryOp::Add, left: Box::new(lit()), right: Box::new(child), location: loc(), location_of_op: loc() },
+						"Unary:expression" => Expression::Unary { op: UnaryOp::Negative, expression: Box::new(child), location: loc(), location_of_op: loc() },
+						"Parenthesized:inner" => Expression::Parenthesized { inner: Box::new(child), location: loc() },
+						"Autocoerce:expression" => Expression::Autocoerce { expression: Box::new(child), coerced_type: int32 },
+						"BitCast:expression" => Expression::BitCast { expression: Box::new(child), coerced_type: None, location: loc(), location_of_keyword: loc() },
+						"TypeCast:expression" => Expression::TypeCast { expression: Box::new(child), coerced_type: int32, location: loc(), location_of_type: loc() },
+						"FunctionCall:arguments" => Expression::FunctionCall { name: id(20), builtin: None, arguments: vec![child], return_type: None },
+						"ArrayLiteral:array" => Expression::ArrayLiteral { array: Array { elements: vec![child], location: loc(), resolution_id: 21 }, element_type: None },
+						"Structural:members" => Expression::Structural {
+							members: vec![MemberExpression { name: Ok(id(22)), offset: None, expression: child }],
+							structural_type: Ok(int32),
+							location: loc(),
+						},
+						other => panic!("unknown wrapper {other}"),
+					};
+					let out = format!("{:?}", h::analyze_expression(&declared, e));
+					if out.contains("NotMutable") { "err530".to_string() } else { "ok".to_string() }
+				}
 				"use" => match h::use_variable(&declared, &base, w[3] == "1")
 				{
 					Ok(()) => "ok".to_string(),
